@@ -177,6 +177,28 @@ def run(ctx):
     ctx.ob('C30-PERCENT.original-text-saved-before-doubling', ad, orig[0] if orig else ad.node, ok, '' if ok else 'original_sql is not the untouched statement text')
     # ---------------------------------------------------------------- KEY
     C05.key_rule(ctx, only={'adapt_sql', 'parse_raw_sql'}, prefix='C30-KEY', floor=2)
+    # the type object of a raw fragment is part of the translator / constructed-SQL / result cache keys: two fragments are "the same" only when their
+    # text is the same, character for character.  Whatever RawSQLType.__eq__ compares (and __hash__ hashes) of the text is the text as given to
+    # __init__ -- not a normalised form (whitespace inside an SQL string literal is data)
+    rt = repo.cls('pony.orm.ormtypes', 'RawSQLType')
+    ini, eqm = rt.methods.get('__init__'), rt.methods.get('__eq__')
+    ctx.need(ini is not None and eqm is not None and len(ini.params) > 1, 'C30-KEY: RawSQLType.__init__ / __eq__ not found')
+    textp = ini.params[1]
+    attr_defs = {t.attr: st.value for st in walk_no_nested(ini.node) if isinstance(st, ast.Assign) for t in st.targets if isinstance(t, ast.Attribute) and dotted(t.value) == ini.recv}
+    compared = sorted({c.left.attr for c in ast.walk(eqm.node) if isinstance(c, ast.Compare) and isinstance(c.left, ast.Attribute) and dotted(c.left.value) == eqm.recv
+                       and len(c.comparators) == 1 and isinstance(c.comparators[0], ast.Attribute) and c.comparators[0].attr == c.left.attr})
+    def carries_text(e):
+        """does `e` hold the text parameter itself (bare, or as an element of a tuple)?"""
+        if isinstance(e, ast.Name) and e.id == textp: return True
+        if isinstance(e, ast.Tuple): return any(carries_text(x) for x in e.elts)
+        return False
+    def mentions_text(e): return any(isinstance(x, ast.Name) and x.id == textp for x in ast.walk(e))
+    exact = [a_ for a_ in compared if a_ in attr_defs and carries_text(attr_defs[a_])]
+    lossy = [a_ for a_ in compared if a_ in attr_defs and mentions_text(attr_defs[a_]) and not carries_text(attr_defs[a_])]
+    ok = bool(exact)
+    ctx.ob('C30-KEY.fragment-type-equality-compares-the-text-as-given', eqm, eqm.node, ok,
+           '' if ok else 'RawSQLType.__eq__ compares %s, none of which is the fragment text as given (%s): two different fragments share the cached translation and the '
+           'second one is executed with the text of the first' % (compared, '; '.join('%s = %s' % (a_, norm(attr_defs[a_])[:50]) for a_ in lossy) or 'the text is not compared at all'))
     # ---------------------------------------------------------------- EVAL
     er = repo.fn(CORE, 'Database._exec_raw_sql')
     txt = [norm(s) for s in walk_no_nested(er.node) if isinstance(s, ast.stmt)]
@@ -203,6 +225,8 @@ def run(ctx):
 
 
 MUTANTS = [
+    dict(id='C30-rt1', file='pony/orm/ormtypes.py', fn='RawSQLType.__eq__', old="        return type(other) is RawSQLType and self.sql == other.sql and self.types == other.types", new="        return type(other) is RawSQLType and self.types == other.types", expect='C30-KEY.fragment-type'),
+    dict(id='C30-rt2', file='pony/orm/ormtypes.py', fn='RawSQLType.__eq__', old="        return type(other) is RawSQLType and self.sql == other.sql and self.types == other.types", new="        if type(other) is not RawSQLType: return False\n        return self.types == other.types and self.sql == other.sql", benign=True),
     dict(id='C30-fr1', file='pony/orm/sqltranslation.py', fn='RawSQLMonad.getsql', old="                param_converter = provider.get_converter_by_py_type(param_type)\n                result.append(['PARAM', (monad.varkey, i, None), param_converter])",
          new="                param = params.get(expr) if 'params' in locals() else None\n                if param is None:\n                    params = locals().get('params', {})\n                    param_converter = provider.get_converter_by_py_type(param_type)\n                    param = params[expr] = ['PARAM', (monad.varkey, i, None), param_converter]\n                result.append(param)", expect='C30-FRAGMENT'),
     dict(id='C30-s1', file='pony/orm/ormtypes.py', fn='parse_raw_sql', old="            pos = i+1 + len(expr)\n            if expr.endswith(';'): expr = expr[:-1]\n", new="            if expr.endswith(';'): expr = expr[:-1]\n            pos = i+1 + len(expr)\n", expect='C30-SCAN.siblings-scan-in-the-same-order'),
